@@ -94,6 +94,31 @@ def eval_pair(args):
     return dict(ver=ver, a=fa, b=fb, bad=bad)
 
 
+def eval_oc_extension(args):
+    """XSD 1.1: the open content of an extension admits the UNION of its own wildcard and the wildcard of the base type's open content - whether the base has an explicit
+    xs:openContent or takes the schema's xs:defaultOpenContent"""
+    fa, fb, base_kind = args
+    import xmlschema
+    A = {ns for ns in UNIVERSE if denote(fa, ns)}; B = {ns for ns in UNIVERSE if denote(fb, ns)}
+    oc = lambda f: f'<xs:openContent mode="interleave">{anyel(f)}</xs:openContent>'
+    dflt = f'<xs:defaultOpenContent mode="interleave">{anyel(fa)}</xs:defaultOpenContent>' if base_kind == 'default' else ''
+    xsd = (f'<xs:schema {XS} targetNamespace="{T}" xmlns:t="{T}" xmlns:a="urn:a" xmlns:b="urn:b" elementFormDefault="qualified">{dflt}'
+           f'<xs:complexType name="Base">{oc(fa) if base_kind == "explicit" else ""}<xs:sequence><xs:element name="foo" minOccurs="0"/></xs:sequence></xs:complexType>'
+           f'<xs:complexType name="Der"><xs:complexContent><xs:extension base="t:Base">{oc(fb)}<xs:sequence><xs:element name="bar" minOccurs="0"/></xs:sequence></xs:extension></xs:complexContent></xs:complexType>'
+           f'<xs:element name="d" type="t:Der"/><xs:element name="b" type="t:Base"/></xs:schema>')
+    try: s = xmlschema.XMLSchema11(xsd)
+    except xmlschema.XMLSchemaException as e: return dict(args=[list(fa), list(fb), base_kind], bad=[('schema refused', f'{type(e).__name__}: {str(e).splitlines()[0][:90]}', sorted(A | B))])
+    bad = []
+    for tag, want in (('d', A | B), ('b', A)):
+        got = set()
+        for ns in UNIVERSE:
+            kid = f'<n:x xmlns:n="{ns}"/>' if ns else '<x xmlns=""/>'
+            if s.is_valid(f'<t:{tag} xmlns:t="{T}">{kid}</t:{tag}>'): got.add(ns)
+        # (names of the target namespace compete with the declared children foo / bar: x is neither)
+        if got != want: bad.append((tag, sorted(got), sorted(want)))
+    return dict(args=[list(fa), list(fb), base_kind], bad=bad) if bad else None
+
+
 def run(tier, seed, open_findings):
     jobs = [(ver, a, b) for ver in ('1.0', '1.1') for a in forms(ver) for b in forms(ver)]
     res = pmap(eval_pair, jobs)
@@ -113,11 +138,19 @@ def run(tier, seed, open_findings):
                   required='an accepted restriction admits, through its open content, only what the open content of the base admits') for r, j in zip(ores, ojobs) if r]
     oc = result('C16.open_content_wildcard_restrictions', f'{len(ojobs)} (defaultOpenContent, open content of the base, of the restriction, derived model) under XMLSchema11 x {len(C14_facets.OC_WORDS)} child sequences',
                 len(ojobs), ofail, exhaustive=True, distinct=sum(1 for r in ores if r is not None))
-    return [oc, two, result('C16.pairs_through_real_schemas', f'{len(jobs)} ordered pairs of constraints x (extension, attribute group, restriction, choice of two xs:any) over the universe {UNIVERSE}', len(jobs) * 4, fails,
+    F11 = [f for f in forms('1.1') if len(f) == 2]
+    ejobs = [(fa, fb, bk) for fa in F11 for fb in F11 for bk in ('explicit', 'default')]
+    ejobs, eex = part(ejobs, tier, seed, 3)
+    eres = pmap(eval_oc_extension, ejobs, chunk=4)
+    oce = result('C16.open_content_extension_union', f'{len(ejobs)} (wildcard of the base open content, wildcard of the extension, base open content explicit / from defaultOpenContent) under XMLSchema11 x the universe {UNIVERSE}',
+                 len(ejobs) * 2, [dict(case=dict(oc_extension=r['args']), observed=[list(b) for b in r['bad'][:3]], required='the extension is accepted and admits the union; the base admits its own set') for r in eres if r], exhaustive=eex)
+    return [oce, oc, two, result('C16.pairs_through_real_schemas', f'{len(jobs)} ordered pairs of constraints x (extension, attribute group, restriction, choice of two xs:any) over the universe {UNIVERSE}', len(jobs) * 4, fails,
                    exhaustive=True, samples=[dict(a=['namespace', '##other'], b=['namespace', '##targetNamespace urn:b'], op='extension')], distinct=len(jobs) * 4)]
 
 
 def replay(check_name, case):
+    if case.get('oc_extension'):
+        a = case['oc_extension']; r = eval_oc_extension((tuple(a[0]), tuple(a[1]), a[2])); return dict(ok=r is None, observed=r and r['bad'][:2], required='union of the two sets')
     if case.get('open'):
         from . import C14_facets
         return C14_facets.replay(check_name, case)
